@@ -4,8 +4,8 @@ CONSTANTS
   Kinds = {"package", "import", "var", "type", "vargroup", "func", "method", "opmethod", "stmt", "block", "flit", "flitres", "conv"}
   Variants = {"plain", "lead", "trail", "inner", "blank"}
   FuncExprIsDecl = FALSE
-  ParenIsNesting = FALSE
-  ImportIsDecl = FALSE
-  TrailingCommentStays = FALSE
+  ParenIsNesting = TRUE
+  ImportIsDecl = TRUE
+  TrailingCommentStays = TRUE
 INVARIANTS WantIsStatement CodeKeepsBytes SplitSane CodeMeetsStatement Export
 PROPERTY Terminates
